@@ -159,6 +159,7 @@ def expectedGuards : List (String × String × String × String) := [
   ("photon_weave/state/composite_envelope.py", "ProductState.apply_operation", "not jnp.any(jnp.abs(ps) > 1e-12)", "ValueError"),
   ("photon_weave/state/composite_envelope.py", "ProductState.apply_operation", "not jnp.any(jnp.abs(ps) > 1e-12)", "ValueError"),
   ("photon_weave/state/composite_envelope.py", "CompositeEnvelope._check_members", "not any((s is m for m in members))", "ValueError"),
+  ("photon_weave/state/composite_envelope.py", "CompositeEnvelope.measure", "any((getattr(s, 'measured', False) for s in states))", "ValueError"),
   ("photon_weave/state/composite_envelope.py", "CompositeEnvelope.measure_POVM", "op.shape != (dim, dim)", "ValueError"),
   ("photon_weave/state/composite_envelope.py", "CompositeEnvelope.apply_kraus", "len(states) != len(list(set(states)))", "ValueError"),
   ("photon_weave/state/composite_envelope.py", "CompositeEnvelope.apply_kraus", "op.shape != (dim, dim)", "ValueError"),
@@ -173,6 +174,7 @@ def expectedGuards : List (String × String × String × String) := [
   ("photon_weave/state/custom_state.py", "CustomState.apply_operation", "not jnp.any(jnp.abs(new_state) > 1e-12)", "ValueError"),
   ("photon_weave/state/envelope.py", "Envelope.combine", "s.measured", "ValueError"),
   ("photon_weave/state/envelope.py", "Envelope.measure", "self.measured", "ValueError"),
+  ("photon_weave/state/envelope.py", "Envelope.measure", "any((s.measured for s in states if s is not None))", "ValueError"),
   ("photon_weave/state/envelope.py", "Envelope.measure", "s is not self.polarization and s is not self.fock", "ValueError"),
   ("photon_weave/state/envelope.py", "Envelope.measure_POVM", "self.measured", "ValueError"),
   ("photon_weave/state/envelope.py", "Envelope.measure_POVM", "isinstance(states[0], Fock) and isinstance(states[1], Fock) or (isinstance(states[0], Polarization) and isinstance(states[1], Polarization))", "ValueError"),
